@@ -50,6 +50,25 @@ IntAt(j) ==
       ty == (IF sg = 0 THEN "uint" ELSE "int") \o ToString(n)
   IN  TItem("ints", Wrap(p, ty, Spell(BoundVal(n, b), s), NNum("1")))
 
+\* decimal neighbours of short numbers (see Gen_C13): JSON literals m * 10^k +- d as uint256 / int256 values, either sign.
+\* The literal is encoded at its exact value or refused, never at the short neighbour a binary64 reader lands on.
+NbMants == <<<<1>>, <<1, 3, 3, 7>>, <<9>>, <<2, 5>>>>
+NbKs9 == IF Thorough THEN [i \in 1..58 |-> 15 + i] ELSE <<16, 17, 18, 19, 20, 21, 22, 24, 27, 30, 38, 45, 60, 73>>
+NbDs9 == <<1, 7, 1000>>
+NNeighbours9 == Len(NbKs9) * Len(NbMants) * Len(NbDs9) * 2
+Neighbour9At(j) ==
+  LET q   == j - 1
+      k   == NbKs9[1 + (q % Len(NbKs9))]
+      m   == NbMants[1 + ((q \div Len(NbKs9)) % Len(NbMants))]
+      d   == NbDs9[1 + ((q \div (Len(NbKs9) * Len(NbMants))) % Len(NbDs9))]
+      up  == (q \div (Len(NbKs9) * Len(NbMants) * Len(NbDs9))) = 0
+      rnd == BnFromDec(m \o Zeros(k - Len(m) + 1))
+      mag == IF up THEN BnAdd(rnd, BnFromNat(d)) ELSE BnSub(rnd, BnFromNat(d))
+      neg == j % 4 = 3
+      v   == <<neg, mag>>
+  IN  TItem("decimal_neighbours", Wrap(j % 5, IF neg THEN "int256" ELSE IF j % 2 = 0 THEN "uint256" ELSE "int256",
+                                       Spell(v, 3 + (j % 3)), NNum("1")))
+
 \* ---- bytesN ---------------------------------------------------------------------
 NBytesN == 32 * 4 * 2
 BytesNAt(j) ==
@@ -176,7 +195,8 @@ O4 == O3 + NNest
 O5 == O4 + Len(UndefDocs)
 O6 == O5 + NMatrix
 O7 == O6 + NAlias
-Count == O7 + NDup
+O8 == O7 + NDup
+Count == O8 + NNeighbours9
 ItemAt(g) ==
   IF g <= O1 THEN IntAt(g)
   ELSE IF g <= O2 THEN BytesNAt(g - O1)
@@ -185,7 +205,8 @@ ItemAt(g) ==
   ELSE IF g <= O5 THEN UndefAt(g - O4)
   ELSE IF g <= O6 THEN MatrixAt(g - O5)
   ELSE IF g <= O7 THEN AliasAt(g - O6)
-  ELSE DupAt(g - O7)
+  ELSE IF g <= O8 THEN DupAt(g - O7)
+  ELSE Neighbour9At(g - O8)
 Histories == IF "VERIF_TIER" \in DOMAIN IOEnv /\ IOEnv.VERIF_TIER = "thorough" THEN 300 ELSE 40
 VARIABLE n
 INSTANCE GenBase
